@@ -1010,3 +1010,81 @@ def zooming_hooks():
         cover(ctx, t)
 
     return {"after_init": after_init, "after_pull": after_pull, "after_recv": after_recv}
+
+
+# ------------------------------------------------------------------ VROOM: C13 / C04
+def vroom_hooks():
+    S = {}
+    name = "VROOM"
+
+    def after_init(ctx):
+        S.update(ledger={}, rounds=0)
+
+    def lcb(a, nd):
+        rs = S["ledger"].get(nd._vid, [])
+        if not rs:
+            return -math.inf
+        return math.fsum(rs) / len(rs) - math.sqrt(math.log(4 * a.n ** 3 / a.delta) / (2 * len(rs)))
+
+    def after_pull(ctx, t, pt):
+        import PyXAB.algos.VROOM as VM
+        case, a, part = ctx["case"], ctx["algo"], ctx["part"]
+        sd = a.search_depth
+        nl = part.get_node_list()
+        weights = []
+        for h in range(1, sd + 1):
+            layer = nl[h]
+            ranks = [n.rank[-1] for n in layer]
+            if sorted(ranks) != list(range(1, len(layer) + 1)):
+                case.fail("C13", "ranks-not-a-permutation", f"depth {h}: ranks {sorted(ranks)[:8]}.. for {len(layer)} cells", step=t, algo=name); return
+            if len(layer) != 2 ** h:
+                case.fail("C13", "layer-size", f"depth {h} has {len(layer)} cells", step=t, algo=name, K=ctx["K"], kind=ctx["kind"]); return
+            by_rank = sorted(layer, key=lambda n: n.rank[-1])
+            vals = [lcb(a, n) for n in by_rank]
+            for x, y in zip(vals[:-1], vals[1:]):
+                if y > x and not rel_close(x, y):
+                    case.fail("C13", "rank-order", f"depth {h}: lower confidence values not non-increasing in rank ({x!r} then {y!r})", step=t, algo=name); return
+            weights += [(h, n.rank[-1]) for n in layer]
+        C = math.fsum(1 / (h * r) for h, r in weights)
+        if len(a.prob) != len(weights):
+            case.fail("C13", "weights-length", f"{len(a.prob)} weights for {len(weights)} ranked cells", step=t, algo=name); return
+        for p_, (h, r) in zip(a.prob, weights):
+            if not rel_close(float(p_), 1 / (h * r * C), 1e-9):
+                case.fail("C13", "weight-formula", f"weight {p_!r} for (depth {h}, rank {r}); 1/(h r C) = {1/(h*r*C)!r}", step=t, algo=name); return
+        if abs(math.fsum(float(x) for x in a.prob) - 1) > 1e-9:
+            case.fail("C13", "weights-sum", f"sum {math.fsum(a.prob)!r}", step=t, algo=name)
+        drawn = a.curr_node
+        last = getattr(VM.VROOM_node, "_verif_last", None)
+        S["path"] = list(a.update_list)
+        if last is None or not is_ancestor_or_self(drawn, last):
+            case.fail("C13", "point-not-from-descendant", "the sampled cell is not a descendant of the drawn cell", step=t, algo=name); return
+        want = max(drawn.get_depth(), a.h_max)
+        if last.get_depth() != want:
+            case.fail("C13", "descent-depth", f"sampled at depth {last.get_depth()}, drawn depth {drawn.get_depth()}, cap {a.h_max}", step=t, algo=name)
+        for x, (lo, hi) in zip(pt, drawn.get_domain()):
+            if not (lo <= x <= hi):
+                case.fail("C13", "point-outside-drawn-cell", f"{pt} not in {drawn.get_domain()}", step=t, algo=name); break
+        for x, (lo, hi) in zip(pt, last.get_domain()):
+            if not (lo <= x <= hi):
+                case.fail("C13", "point-outside-sampled-cell", f"{pt} not in {last.get_domain()}", step=t, algo=name); break
+        # path = drawn cell followed by the descent
+        chain = []
+        x = last
+        while x is not None and x is not drawn:
+            chain.append(x); x = x.get_parent()
+        chain.append(drawn); chain.reverse()
+        if [id(n) for n in chain] != [id(n) for n in a.update_list]:
+            case.fail("C13", "credit-path", "update_list is not the drawn cell followed by the descent", step=t, algo=name)
+        S["chain"] = chain
+
+    def after_recv(ctx, t, pt, r):
+        case, a, part = ctx["case"], ctx["algo"], ctx["part"]
+        for n in S.get("chain", []):
+            S["ledger"].setdefault(n._vid, []).append(r)
+        S["rounds"] += 1
+        for x in reachable(part.get_root()):
+            exp = S["ledger"].get(x._vid, [])
+            if list(x.reward) != exp:
+                case.fail("C04", "reward-list", f"cell ({x.get_depth()},{x.get_index()}) holds {len(x.reward)} rewards, history credits {len(exp)}", step=t, algo=name); break
+
+    return {"after_init": after_init, "after_pull": after_pull, "after_recv": after_recv}
